@@ -30,6 +30,7 @@ inductive PV where
 
 inductive PyErr where
   | valueError | typeError | internal
+  | other (name : String)     -- any other exception class, by name (`FrozenInstanceError`, …)
   deriving DecidableEq, Repr, Inhabited
 
 /-- one `builder.<name>(args)` call (or the `_ClassBuilder(...)` construction) -/
